@@ -11,8 +11,8 @@ Executable model (core Lean only) of
   `::update_estimate` (l.373-512), `::apply_multiplicative_update` (l.356-369)
                                                         src/iterative/OSMAPOSL/OSMAPOSLReconstruction.cxx
 * `IterativeReconstruction::set_up` range checks (l.440-487), `::get_subset_num` (fixed order, l.637-638),
-  `::reconstruct(target)` loop (l.414-419),
-  `::end_of_iteration_processing` (inter-iteration filter, l.545-550)
+  `::reconstruct(target)` loop (l.414-419), `::reconstruct()` (l.384-398), `::get_initial_data_ptr` (l.351-378),
+  `::end_of_iteration_processing` (inter-iteration filter l.545-550, post-filter l.556-563)
                                                         src/recon_buildblock/IterativeReconstruction.cxx
 
 Numbers are `Rat` (every float is a dyadic rational; float *rounding* is not modelled, the correspondence check
@@ -218,14 +218,159 @@ def reconstruct (c : Cfg) (start last : Nat) (img : Img) : List Img := runFrom c
 def setUp (c : Cfg) (img : Img) : Img :=
   if c.enforceInitialPositivity then thresholdMinToSmallPositive img smallNum else img
 
+/-! ### the multiplicative update image (`write update image`), the post-filter, the no-argument `reconstruct()` -/
+
+def zip3With {α : Type} (f : Rat → Rat → Rat → α) : Img → Img → Img → List α
+  | a :: as, b :: bs, c :: cs => f a b c :: zip3With f as bs cs
+  | _, _, _ => []
+
+/-- one voxel of `*multiplicative_update_image_ptr` after the division (OSMAPOSLReconstruction.cxx:404-463), i.e. of the
+    image that `write_update_image` writes (l.478-488), before the relative-change limits of l.490-503 -/
+def updImgVoxel (m : MapModel) (numSubsets : Nat) (small g s pg : Rat) : Ext :=
+  divide1 small g (denom m numSubsets pg s)
+
+/-- the image written as `<prefix>_update_<k>` when `write_update_image` is set (l.478-488).  It is computed from the
+    *unfiltered* estimate and does not depend on the inter-update filter. -/
+def updateImage (c : Cfg) (k : Nat) (img : Img) : List Ext :=
+  let S := subsetNum k c.startSubset c.numSubsets
+  let g := c.gps S img
+  let s := c.sens S
+  let pg := match c.map with
+    | .none => g.map fun _ => 0
+    | _ => c.priorGrad img
+  zip3With (updImgVoxel c.map c.numSubsets (smallValue g (divideSmallNum c.map))) g s pg
+
+/-- l.490-503: `if (subiteration_num != 1) threshold_upper_lower(update, new_min, new_max)` -/
+def limitUpdate (c : Cfg) (k : Nat) (u : Ext) : Ext :=
+  if k != 1 then thresholdUpperLower c.minRel c.maxRel u else u
+
+/-- `IterativeReconstruction::end_of_iteration_processing` with a post-filter (`Reconstruction::set_post_processor_sptr`,
+    key `post-filter type`), IterativeReconstruction.cxx:545-563: inter-iteration filter, then
+    `if (subiteration_num == num_subiterations && post_filter_sptr) post_filter_sptr->apply(current_estimate)`; the result
+    is what is saved (l.568-572) and what stays in memory.  `last` is `num_subiterations`.  Unlike the inter-update /
+    inter-iteration filters the post-filter is NOT chained with a positivity threshold. -/
+def endOfIterationPost (c : Cfg) (post : Option (Img → Img)) (last k : Nat) (img : Img) : Img :=
+  let img1 := endOfIteration c k img
+  match post with
+  | some f => if k = last then f img1 else img1
+  | none => img1
+
+/-- loop body of `reconstruct(target)` with a post-filter set -/
+def subIterPost (c : Cfg) (post : Option (Img → Img)) (last k : Nat) (img : Img) : Option Img :=
+  (allFin (updateEstimate c k img)).map (endOfIterationPost c post last k)
+
+def runFromPost (c : Cfg) (post : Option (Img → Img)) (last : Nat) : Nat → Nat → Img → List Img
+  | _, 0, _ => []
+  | k, n + 1, img =>
+    match subIterPost c post last k img with
+    | none => []
+    | some img' => img' :: runFromPost c post last (k + 1) n img'
+
+/-- `reconstruct(target)` with a post-filter: the images saved with `save_interval = 1` -/
+def reconstructPost (c : Cfg) (post : Option (Img → Img)) (start last : Nat) (img : Img) : List Img :=
+  runFromPost c post last start (last + 1 - start) img
+
+/-- the value of the key `initial estimate` (`initial_data_filename`, default "1") -/
+inductive InitialEstimate where
+  | zeros                -- "0"
+  | ones                 -- "1"
+  | file (img : Img)     -- any other value: the name of an image file (its voxel values)
+
+/-- `IterativeReconstruction::get_initial_data_ptr` (IterativeReconstruction.cxx:351-378); `nvox` is the size of
+    `objective_function_sptr->construct_target_ptr()` -/
+def initialData (nvox : Nat) : InitialEstimate → Img
+  | .zeros => List.replicate nvox 0
+  | .ones => List.replicate nvox 1
+  | .file img => img
+
+/-- the no-argument `IterativeReconstruction::reconstruct()` (l.384-398), what a parameter file drives:
+    `target = get_initial_data_ptr(); set_up(target); reconstruct(target)` — also for `start at subiteration number > 1` -/
+def reconstructNoArg (c : Cfg) (post : Option (Img → Img)) (nvox : Nat) (init : InitialEstimate) (start last : Nat) :
+    List Img :=
+  reconstructPost c post start last (setUp c (initialData nvox init))
+
 /-- the range checks of `IterativeReconstruction::set_up` (IterativeReconstruction.cxx:440-487) and
     `OSMAPOSLReconstruction::set_up` (OSMAPOSLReconstruction.cxx:294-298): `true` = accepted.  (Whether the subsets are
-    balanced is a separate refusal, property C06.)  `set_start_subset_num` makes the same check on its argument. -/
+    balanced is a separate refusal: `setUpAcceptsSubsets` below.)  `set_start_subset_num` makes the same check on its argument. -/
 def setUpRangesOk (numSubsets startSubset numSubiterations startSubiteration saveInterval
     interIterationInterval interUpdateInterval : Int) : Bool :=
   decide (1 ≤ numSubsets) && decide (1 ≤ numSubiterations) &&
   decide (0 ≤ startSubset) && decide (startSubset < numSubsets) &&
   decide (1 ≤ saveInterval) && decide (saveInterval ≤ numSubiterations) &&
   decide (0 ≤ interIterationInterval) && decide (1 ≤ startSubiteration) && decide (0 ≤ interUpdateInterval)
+
+/-! ### the refusal of unbalanced subsets by `set_up`
+
+`OSMAPOSLReconstruction::set_up` (OSMAPOSLReconstruction.cxx:281-289) fails unless
+`objective_function().subsets_are_approximately_balanced()`; for projection data this is
+`PoissonLogLikelihoodWithLinearModelForMeanAndProjData::actual_subsets_are_approximately_balanced`
+(PoissonLogLikelihoodWithLinearModelForMeanAndProjData.cxx:494-533), which counts, per subset, the view/segment pairs
+related by the symmetries of the back projector to the basic pairs of the subset
+(`DataSymmetriesForBins_PET_CartesianGrid`, .cxx:236-365 and .inl:398, :677).  The same transcription as in the model of
+property C06 (whose theorems are about the partition); here it decides `set_up` for every geometry of the harness
+(span, view mashing, time-of-flight). -/
+
+structure Sym where
+  V : Int            -- num_views (after view mashing)
+  d90 : Bool         -- do_symmetry_90degrees_min_phi (effective)
+  d180 : Bool        -- do_symmetry_180degrees_min_phi (effective)
+  swapSeg : Bool     -- do_symmetry_swap_segment (effective)
+
+/-- requested flags → effective flags (constructor, .cxx:236-365; square voxels, centred image):
+    `d180 := d90 || d180`; `num_views % 4 != 0` switches the 90-degree symmetry off, `num_views % 2 != 0` the 180-degree one;
+    `phiOffset` (`|get_phi(Bin(0,0,0,0))| > 1e-4`: scanner tilt, or the offset `ProjDataInfoCylindrical` adds for view
+    mashing, ProjDataInfoCylindrical.cxx:69-91) switches both off; for TOF data all of them are switched off -/
+def Sym.effective (V : Int) (d90v d180v swap tof phiOffset : Bool) : Sym :=
+  let d180 := d90v || d180v
+  let d90 := if V.tmod 4 != 0 then false else d90v
+  let d180 := if V.tmod 2 != 0 then false else d180
+  let d90 := if phiOffset then false else d90
+  let d180 := if phiOffset then false else d180
+  if tof then { V := V, d90 := false, d180 := false, swapSeg := false }
+  else { V := V, d90 := d90, d180 := d180, swapSeg := swap }
+
+/-- `find_basic_view_segment_numbers` (.inl:398): does the pair change? (`is_basic` = it does not) -/
+def isBasic (y : Sym) (view seg : Int) : Bool :=
+  let view90 := y.V / 2          -- num_views >> 1
+  let view45 := view90 / 2
+  let view135 := view90 + view45
+  let change := y.swapSeg && seg < 0
+  if y.d90 then
+    if view ≥ view135 then false
+    else if view ≥ view90 then false
+    else if view > view45 then false
+    else !change
+  else if y.d180 then
+    if view > view90 then false else !change
+  else !change
+
+/-- `num_related_view_segment_numbers` (.inl:677) -/
+def numRelated (y : Sym) (view seg : Int) : Nat :=
+  let n := if y.d180 && (view.tmod (y.V.tdiv 2)) != 0 then 2 else 1
+  let n := if y.d90 && (view.tmod (y.V.tdiv 2)) != y.V.tdiv 4 then n * 2 else n
+  if y.swapSeg && seg != 0 then n * 2 else n
+
+/-- views visited by `for (view = minV + i; view <= maxV; view += n)` -/
+def viewsOfSubset (minV maxV : Int) (i n : Nat) : List Int :=
+  if minV + i > maxV then []
+  else (List.range (((maxV - (minV + i)) / n).toNat + 1)).map fun (k : Nat) => minV + i + n * (k : Int)
+
+/-- integers `lo, lo+1, …, hi` -/
+def intRange (lo hi : Int) : List Int := (List.range (hi - lo + 1).toNat).map fun (k : Nat) => lo + (k : Int)
+
+/-- `num_vs_in_subset[i]` of `actual_subsets_are_approximately_balanced` (segments `-maxSeg … maxSeg`) -/
+def numVSInSubset (y : Sym) (minV maxV maxSeg : Int) (i n : Nat) : Nat :=
+  ((intRange (-maxSeg) maxSeg).flatMap fun seg =>
+    ((viewsOfSubset minV maxV i n).filter fun v => isBasic y v seg).map fun v => numRelated y v seg).sum
+
+/-- `actual_subsets_are_approximately_balanced` -/
+def balanced (y : Sym) (minV maxV maxSeg : Int) (n : Nat) : Bool :=
+  (List.range n).all fun i => numVSInSubset y minV maxV maxSeg i n == numVSInSubset y minV maxV maxSeg 0 n
+
+/-- does `OSMAPOSLReconstruction::set_up` accept `n` subsets (all other parameters legal)?  `n < 1` is refused by the
+    range check, unbalanced subsets by l.281-289 (and before that by the objective function when it is to use the total
+    sensitivity) -/
+def setUpAcceptsSubsets (y : Sym) (minV maxV maxSeg : Int) (n : Int) : Bool :=
+  decide (1 ≤ n) && balanced y minV maxV maxSeg n.toNat
 
 end StirVerif.C07
